@@ -8,10 +8,13 @@ dequeued history and each event the successor is built, the per-transition oracl
 and the per-state invariant are evaluated, and the successor is enqueued iff its
 canonical state key is new.  The search runs to closure or to `depth_cap`.
 
-Parallel split: the worker with index w explores only the sub-graph below the
-first-level events i with i % W == w (with its own seen-set), so the union of
-the workers covers every history up to the depth cap; the evidence merges the
-sets of state hashes.
+Two ways to use the 16 cores:
+  * default: the worker with index w explores only the sub-graph below the first-level events i with
+    i % W == w (with its own seen-set), so the union of the workers covers every history up to the depth
+    cap; the evidence merges the sets of state hashes (simple, but slices re-explore common states);
+  * `level_sync = True`: the runner (mcv.core.run_level_bfs) keeps ONE seen-set in the parent process and
+    farms the expansion of each BFS level out to the pool (expand_histories below), so no state is
+    expanded twice.
 """
 import hashlib
 import collections
@@ -129,6 +132,37 @@ class BFSFamily(Family):
         if v is None:
             v = self.invariant(ctx)
         return Result('violation' if v else 'ok', True, v, calls=len(hist))
+
+
+def expand_histories(fam, tier, hists):
+    """
+    Worker side of the level-synchronous search: for every history in `hists` (lists of event indexes) and every
+    event, build the successor on fresh objects, evaluate the transition oracle and the state invariant, and
+    return (new_history, state_hash, violation-or-None, observations).  An empty `hists` returns the initial state.
+    """
+    evs = list(fam.events(tier))
+    if not hists:
+        ctx0 = fam.build([])
+        return [([], short_hash(fam.state_key(ctx0)), None, None)]
+    out = []
+    for hist in hists:
+        for i, ev in enumerate(evs):
+            nh = hist + [i]
+            ctx = None
+            try:
+                with watchdog(fam.timeout):
+                    ctx = fam.build([evs[j] for j in nh])
+                    v = fam.check_transition([evs[j] for j in hist], ev, ctx)
+                    if v is None:
+                        v = fam.invariant(ctx)
+            except Watchdog:
+                v = viol(fam.timeout_sig, 'history did not finish within %.0fs' % fam.timeout)
+                ctx = None
+            h = short_hash(fam.state_key(ctx)) if ctx is not None else None
+            label = [jsonable(fam.event_label(evs[j])) for j in nh]
+            obs = jsonable(ctx.obs) if (ctx is not None and len(nh) == 2 and i == 1) else None
+            out.append((nh, h, v, label if (v is not None or obs is not None) else None, obs))
+    return out
 
 
 def finalize_bfs_stats(st):
